@@ -103,10 +103,16 @@ def main():
     repo = args[1] if len(args) > 1 else '/repo'
     path = os.path.join(VERIF, 'variants', prop + '.json')
     variants = json.load(open(path)) if os.path.exists(path) else []
-    # every refactor under /verif/benign is a benign variant of every property
-    for d in sorted(glob.glob(os.path.join(VERIF, 'benign', '*', '*.diff'))):
-        rel = os.path.relpath(d, VERIF)
-        variants.append(dict(name='refactor-' + rel[len('benign/'):-len('.diff')].replace('/', '-'), patch=rel, benign=True))
+    # (the refactors under /verif/benign are swept by scripts/refactors.py)
+    # every confirmed sub-agent regression of this property must be reported
+    for m in sorted(glob.glob(os.path.join(VERIF, 'seeded', '*', 'meta.json'))):
+        try:
+            meta = json.load(open(m))
+        except Exception:
+            continue
+        if meta.get('property') == prop and os.path.exists(os.path.join(os.path.dirname(m), 'patch.diff')):
+            rel = os.path.relpath(os.path.join(os.path.dirname(m), 'patch.diff'), VERIF)
+            variants.append(dict(name='seed-' + os.path.basename(os.path.dirname(m)), patch=rel, expect=''))
     if only:
         variants = [v for v in variants if v['name'] == only]
     workers = int(os.environ.get('VARIANT_JOBS', '6'))
